@@ -28,14 +28,15 @@ const (
 func (s lstate) String() string { return [...]string{"released", "entry", "held"}[s] }
 
 type lockDomain struct {
-	p      *Prog
-	pkg    *ssa.Package
-	tname  string // "tScreen"
-	owner  string // "tcell.tScreen"
-	fns    []*ssa.Function
-	inDom  map[*ssa.Function]bool
-	roots  map[*ssa.Function]string // root kind: api | go | callback
-	initFn map[*ssa.Function]bool   // constructor / Init entry points
+	p       *Prog
+	pkg     *ssa.Package
+	tname   string // "tScreen"
+	owner   string // "tcell.tScreen"
+	muField string
+	fns     []*ssa.Function
+	inDom   map[*ssa.Function]bool
+	roots   map[*ssa.Function]string // root kind: api | go | callback
+	initFn  map[*ssa.Function]bool   // constructor / Init entry points
 
 	// per function results
 	stateAt   map[ssa.Instruction]lstate
@@ -64,6 +65,7 @@ type lockSummary struct {
 	locksAtEntry ssa.Instruction            // Lock() executed in state lsEntry (deadlocks if caller holds)
 	calls        []lsCall
 	leaks        []ssa.Instruction // returns with lsHeld and no deferred unlock
+	mixed        []ssa.Instruction // joins entered with the mutex held on one edge and not on another
 	blocking     []ssa.Instruction // blocking operations while lsHeld
 }
 
@@ -92,7 +94,43 @@ func (d *lockDomain) isLockOp(cc *ssa.CallCommon) (lock, unlock bool) {
 	if !ok || ref.Owner != d.owner {
 		return
 	}
+	// the type's own mutex only (the embedded one, or its only mutex field): a second mutex added for
+	// part of the state protects nothing against the code that still uses the first
+	if mf := d.mutexField(); mf != "" && ref.Name != mf {
+		return
+	}
 	return n == "(*sync.Mutex).Lock", n == "(*sync.Mutex).Unlock"
+}
+
+// mutexField: the name of the domain's mutex field ("Mutex" when embedded), "" when there is none or
+// it cannot be told.
+func (d *lockDomain) mutexField() string {
+	if d.muField != "" {
+		return d.muField
+	}
+	nt := d.p.namedType(d.pkg, d.tname)
+	if nt == nil {
+		return ""
+	}
+	st, ok := nt.Underlying().(*types.Struct)
+	if !ok {
+		return ""
+	}
+	var all []string
+	for i := 0; i < st.NumFields(); i++ {
+		f := st.Field(i)
+		if typeName(f.Type()) == "sync.Mutex" {
+			if f.Anonymous() {
+				d.muField = f.Name()
+				return d.muField
+			}
+			all = append(all, f.Name())
+		}
+	}
+	if len(all) == 1 {
+		d.muField = all[0]
+	}
+	return d.muField
 }
 
 // boundTarget resolves `x.m` method values (bound method wrappers) to m.
@@ -314,6 +352,32 @@ func (d *lockDomain) intra(fn *ssa.Function) {
 					sum.leaks = append(sum.leaks, r)
 				}
 			}
+		}
+	}
+	// a join entered with the mutex held along one edge and not held along another: whatever follows
+	// either unlocks a mutex that is not locked or locks one that is (a loop that goes round holding the
+	// lock after a branch that skipped its Unlock)
+	for _, b := range fn.Blocks {
+		if !reached[b] || deadBlock(b) || len(b.Preds) < 2 || len(b.Instrs) == 0 {
+			continue
+		}
+		held, notHeld := false, false
+		for _, pr := range b.Preds {
+			if !reached[pr] || deadBlock(pr) {
+				continue
+			}
+			st, du := in[pr], du0[pr]
+			for _, ins := range pr.Instrs {
+				st, du = step(ins, st, du, false)
+			}
+			if st == lsHeld && !du {
+				held = true
+			} else if st != lsHeld {
+				notHeld = true
+			}
+		}
+		if held && notHeld {
+			sum.mixed = append(sum.mixed, b.Instrs[0])
 		}
 	}
 	// calls within the domain
@@ -687,7 +751,16 @@ func (d *lockDomain) report() (findings []lockFinding, nAccess int, nFns int) {
 			}
 			if c.state == lsHeld && cs.locksAtEntry != nil && c.kind != "go" {
 				add("R3", short(fn)+"→"+short(c.callee)+":double-lock", c.instr, "call with the mutex held of a function that acquires it")
+			} else if c.state == lsHeld && c.kind != "go" {
+				// … or of one that hands the state it was entered in on to a function that acquires it
+				// (`SetSize` holding the lock calls `HideCursor`, which calls `ShowCursor`)
+				if via := d.locksViaEntry(c.callee, map[*ssa.Function]bool{}); via != "" {
+					add("R3", short(fn)+"→"+short(c.callee)+":double-lock", c.instr, "call with the mutex held of a function that reaches, without releasing it, "+via+", which acquires it")
+				}
 			}
+		}
+		for _, m := range sum.mixed {
+			add("R3", short(fn)+":lock-state-differs-at-join", m, "the mutex is held along one way into this point and not along another")
 		}
 		for _, r := range sum.leaks {
 			add("R3", short(fn)+":lock-leak", r, "returns with the mutex still held (no deferred Unlock on this path)")
@@ -754,4 +827,33 @@ func (d *lockDomain) callableMethods() map[string]bool {
 		out[impl.Method(i).Name()] = true
 	}
 	return out
+}
+
+// locksViaEntry: f, entered with the mutex in the state the caller has it in, calls (in that same entry
+// state) a function that acquires the mutex at its entry; the name of that function, or "".
+func (d *lockDomain) locksViaEntry(f *ssa.Function, seen map[*ssa.Function]bool) string {
+	if f == nil || seen[f] {
+		return ""
+	}
+	seen[f] = true
+	sum := d.summaries[f]
+	if sum == nil {
+		return ""
+	}
+	for _, c := range sum.calls {
+		if c.state != lsEntry || c.kind == "go" {
+			continue
+		}
+		cs := d.summaries[c.callee]
+		if cs == nil {
+			continue
+		}
+		if cs.locksAtEntry != nil {
+			return c.callee.Name()
+		}
+		if via := d.locksViaEntry(c.callee, seen); via != "" {
+			return via
+		}
+	}
+	return ""
 }
